@@ -1781,6 +1781,12 @@ class PyExec:
                     raise CheckerError("np.unique(axis=0) of a non-2D array")
                 rows = sorted({tuple(concrete_int(a.flat[i * a.shape[1] + j]) for j in range(a.shape[1])) for i in range(a.shape[0])})
                 return st.new(NDArr((len(rows), a.shape[1]), [z3.IntVal(x) for r_ in rows for x in r_], "int64"))
+            if short in ("logical_xor", "logical_and", "logical_or"):
+                a, b = self.to_nd(st, args[0]), self.to_nd(st, args[1])
+                if a.shape != b.shape:
+                    raise CheckerError("np.%s on different shapes" % short)
+                f2 = {"logical_xor": z3.Xor, "logical_and": z3.And, "logical_or": z3.Or}[short]
+                return st.new(NDArr(a.shape, [f2(truth(x), truth(y)) for x, y in zip(a.flat, b.flat)], "bool"))
             if short == "transpose":
                 a = self.to_nd(st, args[0])
                 n_, m_ = a.shape
